@@ -9,6 +9,7 @@ pub mod c14;
 pub mod c15;
 pub mod c16;
 pub mod c17;
+pub mod c19;
 
 pub fn all() -> Vec<Obl> {
     let mut l = Vec::new();
@@ -22,5 +23,6 @@ pub fn all() -> Vec<Obl> {
     c15::register(&mut l);
     c16::register(&mut l);
     c17::register(&mut l);
+    c19::register(&mut l);
     l
 }
